@@ -137,6 +137,10 @@ def printer_events(arm_body, F=None, variant=None):
                             local_defs[nm] = "from"
                         elif t.startswith("Precedence::next("):
                             local_defs[nm] = "next"
+                        elif init.get("k") == "Call" and init["f"].get("k") == "Path" and init["f"]["r"].get("path", "").startswith("ast::expr::Precedence::"):
+                            local_defs[nm] = init["f"]["r"]["path"].split("::")[-1]       # `let right_prec = Precedence::right(op)`
+                        elif init.get("k") == "Binary" and init.get("op") == "Lt" and H.local_name(init["a"]) and "Precedence" in init["a"].get("ty", ""):
+                            local_defs[nm] = ("needs-parens", prec_arg(init["b"], local_defs))     # `let parens = prec < LEVEL`
                         elif init.get("k") == "If" and init["cond"].get("k") == "Binary" and init["cond"]["op"] == "Eq" and \
                                 init["cond"]["b"].get("k") == "Lit" and init["cond"]["b"]["lit"].get("v") == 0 and init.get("else") is not None:
                             # `if index == 0 { A } else { B }` under `.enumerate()`: A for the first element, B for the rest
@@ -155,6 +159,13 @@ def printer_events(arm_body, F=None, variant=None):
             return
         if k == "If":
             c = e["cond"]
+            ln_ = H.local_name(c) if c.get("k") == "Path" else None
+            if ln_ and isinstance(local_defs.get(ln_[0]), tuple) and local_defs[ln_[0]][0] == "needs-parens":
+                inner = [is_lit_write(x) for x in hir_walk(e["then"]) if isinstance(x, dict)]
+                inner = [x for x in inner if x]
+                which = "open" if any(x[0] == "lit" and x[1] == "(" for x in inner) else "close" if any(x[0] == "lit" and x[1] == ")" for x in inner) else "?"
+                events.append(("paren-" + which, local_defs[ln_[0]][1]))
+                return
             if c.get("k") == "Binary" and c["op"] == "Lt" and H.local_name(c["a"]) and "Precedence" in c["a"].get("ty", ""):
                 inner = [is_lit_write(x) for x in hir_walk(e["then"]) if isinstance(x, dict)]
                 inner = [x for x in inner if x]
